@@ -392,6 +392,10 @@ structure DS where
   tl : Array String := #[]
 
 def finish (d : DS) : List String :=
+  -- a sanitizer abort / crash / timeout of the implementation outranks whatever the cut-off output looks like
+  match d.tl.toList.find? (·.startsWith "CRASH") with
+  | some c => ["reject implementation " ++ c ++ " (after " ++ toString (d.tl.size - 1) ++ " output lines)"]
+  | none =>
   let a : TA := d.ops.foldl stepOp ({ tl := d.tl.toList } : TA)
   let tagsLine := if a.tags.isEmpty then [] else ["B " ++ " ".intercalate a.tags.eraseDups]
   match a.err with
